@@ -1142,7 +1142,7 @@ static PANICS: Mutex<Vec<String>> = Mutex::new(Vec::new());
 enum RawReply {
     ClosedNoData,
     Data(Vec<u8>),
-    StillOpen(Vec<u8>),
+    StillOpen,
     ConnectFailed(String),
 }
 
@@ -1177,7 +1177,7 @@ async fn raw_exchange(addr: SocketAddr, payload: &[u8], half_close: bool, wait: 
                     break;
                 }
             }
-            Err(_) => return (RawReply::StillOpen(buf), t0.elapsed()),
+            Err(_) => return (RawReply::StillOpen, t0.elapsed()),
         }
     }
     if buf.is_empty() { (RawReply::ClosedNoData, t0.elapsed()) } else { (RawReply::Data(buf), t0.elapsed()) }
@@ -1340,7 +1340,10 @@ async fn hostile_part(ctx: &Ctx) {
     };
 
     // --- hostile clients
-    let rounds = ctx.pick(3usize, 40usize);
+    // the terminated hostile requests are paced so that they span the ~10 s for which the
+    // never-terminated connections are held (quick: 600 connections, thorough: 2400)
+    let rounds = ctx.pick(25usize, 100usize);
+    let pace = Duration::from_millis(ctx.pick(18, 5));
     let hostile = async {
         let tcp_cases = tcp_hostile_cases(&mut ctx.rng(9001));
         let http_cases = http_hostile_cases();
@@ -1410,6 +1413,10 @@ async fn hostile_part(ctx: &Ctx) {
         };
         let fast = async {
             futures::stream::iter(jobs)
+                .then(|j| async move {
+                    tokio::time::sleep(pace).await;
+                    j
+                })
                 .for_each_concurrent(8, |(i, http, round)| async move {
                     let (name, payload, want_status): (&str, &[u8], Option<u16>) = if http {
                         let c = &http_cases[i];
@@ -1423,7 +1430,7 @@ async fn hostile_part(ctx: &Ctx) {
                     // the TCP client normally half-closes after the command; do both
                     let half_close = round % 2 == 0;
                     let mut reply = raw_exchange(addr, payload, half_close, Duration::from_secs(20)).await;
-                    if matches!(reply.0, RawReply::StillOpen(_) | RawReply::ConnectFailed(_)) {
+                    if matches!(reply.0, RawReply::StillOpen | RawReply::ConnectFailed(_)) {
                         ctx.obs(&format!("hostile.{name}.retry"), 1);
                         reply = raw_exchange(addr, payload, half_close, Duration::from_secs(20)).await;
                     }
@@ -1455,7 +1462,7 @@ async fn hostile_part(ctx: &Ctx) {
                                 ctx.obs(&format!("hostile.{name}.error-reply"), 1);
                             }
                         }
-                        RawReply::StillOpen(_) => {
+                        RawReply::StillOpen => {
                             ctx.violation(&format!("C15|hostile|{name}|no-reply-and-not-closed-within-20s"), "a terminated malformed request got neither an error reply nor a closed connection (twice)", json!({"case": name}));
                         }
                         RawReply::ConnectFailed(e) => {
@@ -1494,6 +1501,21 @@ async fn hostile_part(ctx: &Ctx) {
 }
 
 // ---------------------------------------------------------------------------
+
+/// Read by the ThreadSanitizer runtime when this binary is built for the TSan layer
+/// (`bin/sanitize`); an unused exported function in every other build.
+///
+/// TSan does not model the synchronisation that goes through the kernel when a socket is
+/// registered with epoll (`epoll_ctl(ADD, ptr)` happens-before `epoll_wait` returning `ptr`), so
+/// it reports the I/O driver thread's atomic accesses in `ScheduledIo::set_readiness`
+/// (`tokio::runtime::io::driver::Driver::turn`) as racing with the initialisation of that
+/// `ScheduledIo` by whichever thread opened the socket. Both accesses are inside
+/// tokio/src/runtime/io; no access to repository data can have such a frame in its stack, so
+/// the suppression cannot hide a race in /repo code.
+#[unsafe(no_mangle)]
+pub extern "C" fn __tsan_default_suppressions() -> *const std::ffi::c_char {
+    c"race:tokio::runtime::io::scheduled_io\nrace:tokio::runtime::io::driver\nrace:tokio::runtime::io::registration\n".as_ptr()
+}
 
 fn main() {
     let ctx = Ctx::init("C15", "exploration");
